@@ -92,7 +92,8 @@ ResAtoms(z) == { T, F, P1(0), P1(1), P1(2), P1(4), <<28, 0>>, <<28, 1>>, <<28, 3
               T \o LOOP(<<29>>), T \o LOOP(T), T \o LOOP(<<>>), SelfRec, SelfEval,
               T \o IFB(T \o IFB(T \o IFB(T))), WCACHE(<<107>>, 2), RCACHE(<<107>>), RCACHE(<<107>>) \o RCACHE(<<107>>),
               <<54, 2>>, <<54, 3>>, <<52, 0, 1>>, <<52, 1, 3>>, <<3, 5, 1>>, <<43, 0>>, <<4, 1>>, POP0,
-              DEFN(1, <<29>> \o CALL(1)) \o CALL(1), <<51>>, <<8>> }
+              DEFN(1, <<29>> \o CALL(1)) \o CALL(1), <<51>>, <<8>>,
+              DEFN(0, TRY(RAISE, CALL(0))) \o CALL(0), DEFN(0, TRY(CALL(0), T)) \o CALL(0), DEFN(0, T \o IFB(CALL(0))) \o CALL(0) }
 RECURSIVE Progs(_, _)
 Progs(A, n) == IF n = 0 THEN {<<>>} ELSE LET R == Progs(A, n - 1) IN R \cup Cat(R, A)
 LimTriples == {<<a, b, c>> : a \in {1, 2, 3}, b \in {1, 2, 4}, c \in {1, 2, 3}}
@@ -107,8 +108,8 @@ CacheAtoms(z) == UNION { { Mk(3) \o WCACHE(k, 1), WCACHE(k, 0), RCACHE(k), <<11,
                         IPush(k) \o <<12>>, IPush(k) \o <<13>>, <<64, Len(k)>> \o k } : k \in ProtKeys }
               \cup { Mk(3) \o POP0, Mk(3) \o Mk(4) \o <<7, 2>>, TRY(RAISE, <<>>), TRY(RAISE, RCACHE(<<69>>)), RET, <<5, 0>>, <<5, 1>>,
                      T \o IFB(RET) }
-ScProt == << [k |-> KS, t |-> "bytes", v |-> <<170, 187>>, neg |-> FALSE],
-             [k |-> KTimestamp, t |-> "int", v |-> <<1, 0>>, neg |-> FALSE] >>
+ScProt == << [k |-> KS, t |-> "bytes", v |-> <<170, 187>>, neg |-> FALSE, items |-> <<>>],
+             [k |-> KTimestamp, t |-> "int", v |-> <<1, 0>>, neg |-> FALSE, items |-> <<>>] >>
 CacheCfg(s, r0) == [BaseCfg EXCEPT !.scripts = <<s>>, !.hist = TRUE, !.sc = ScProt, !.now = <<1, 0>>, !.ret0 = r0]
 
 ----------------------------------------------------------------------------
